@@ -1,6 +1,7 @@
 package props
 
 import (
+	"encoding/xml"
 	"hash/fnv"
 	"net/url"
 
@@ -34,3 +35,6 @@ func knownBinding(b string) bool {
 func boolPtr(b bool) *bool    { return &b }
 func strPtr(s string) *string { return &s }
 func intPtr(i int) *int       { return &i }
+
+func xmlMarshal(v any) ([]byte, error)   { return xml.Marshal(v) }
+func xmlUnmarshal(b []byte, v any) error { return xml.Unmarshal(b, v) }
